@@ -159,7 +159,7 @@ def m_lazy_deref(ip, callee, args):
     if not hasattr(ip, 'globalcache'): ip.globalcache = {}
     if key in ip.globalcache: return Ref(ip.globalcache[key])
     if key not in ip.pathcache:
-        init = [n for n in ip.fns if n.endswith('::deref::__static_ref_initialize') and ip.static_owner(n) == name]
+        init = [n for n in ip.fns if n.split('#')[0].endswith('::deref::__static_ref_initialize') and ip.static_owner(n) == name]
         n0 = ip.nsym
         ip.pathcache[key] = Cell(ip.call_fn(init[0], []))
         if ip.nsym == n0: ip.globalcache[key] = ip.pathcache[key]
@@ -564,3 +564,59 @@ def install8(ip):
 def m_arc_try_unwrap(ip, c, a): return res_ok(a[0].fields[0].v)
 def install9(ip):
     ip.pattern_models = [(re.compile(r'^Arc::try_unwrap$'), m_arc_try_unwrap)] + ip.pattern_models
+
+# ---- seventh batch: bytes, Try, dyn dispatch helpers
+class ByteOf:
+    __slots__ = ('t', 'i')
+    def __init__(self, t, i): self.t = t; self.i = i
+    def __repr__(self): return "ByteOf(%s,%d)" % (self.t.s, self.i)
+def m_any_u64(ip, c, a):
+    t = ip.fresh('Int', 'u'); ip.solver.add('(and (>= %s 0) (<= %s 18446744073709551615))' % (t.s, t.s)); return t
+def m_to_le_bytes(ip, c, a):
+    v = a[0]; ty = re.search(r'impl (\w+)>', c).group(1); n = {'u8':1,'i8':1,'u16':2,'i16':2,'u32':4,'i32':4,'u64':8,'i64':8,'usize':8,'isize':8,'u128':16,'i128':16}[ty]
+    if not is_sym(v):
+        return [Cell(b) for b in (v % (1 << (8*n))).to_bytes(n, 'little')]
+    return [Cell(ByteOf(v, i)) for i in range(n)]
+def m_from_le_bytes(ip, c, a):
+    lst = a[0] if isinstance(a[0], list) else unref(a[0]); vals = [x.v for x in lst]
+    ty = re.search(r'impl (\w+)>', c).group(1); signed = ty.startswith('i'); n = len(vals)
+    if all(isinstance(b, int) for b in vals):
+        return int.from_bytes(bytes(vals), 'little', signed=signed)
+    if all(isinstance(b, ByteOf) for b in vals) and all(b.t is vals[0].t and b.i == k for k, b in enumerate(vals)):
+        return vals[0].t
+    raise Unsupported("from_le_bytes of mixed bytes: %r" % (vals,))
+def m_try_branch(ip, c, a):
+    r = a[0]
+    if r.variant in ('Ok', 'Some'): return Agg('ControlFlow', 'Continue', [Cell(r.fields[0].v)])
+    return Agg('ControlFlow', 'Break', [Cell(r)])
+def m_from_residual(ip, c, a): return a[0]
+def m_io_error(ip, c, a): return Agg('IoError', None, [])
+def m_cmp_max(ip, c, a):
+    x, y = a
+    if not is_sym(x) and not is_sym(y): return max(x, y)
+    return T("(ite (>= %s %s) %s %s)", 'Int', smt_int(x), smt_int(y), smt_int(x), smt_int(y))
+def install10(ip):
+    Interp.VARIANT_IDX.update({('ControlFlow', 'Continue'): 0, ('ControlFlow', 'Break'): 1, ('SeekFrom', 'Start'): 0, ('SeekFrom', 'End'): 1, ('SeekFrom', 'Current'): 2})
+    ip.models['any_u64'] = m_any_u64; ip.models['vsym::any_u64'] = m_any_u64
+    ip.pattern_models = [
+        (re.compile(r'impl [iu](\d+|size)>::to_le_bytes$'), m_to_le_bytes), (re.compile(r'impl [iu](\d+|size)>::from_le_bytes$'), m_from_le_bytes),
+        (re.compile(r' as Try>::branch$'), m_try_branch), (re.compile(r' as FromResidual<.*>>::from_residual$'), m_from_residual),
+        (re.compile(r'^<std::io::Error as From<.*>>::from$'), m_io_error), (re.compile(r'^std::cmp::max$'), m_cmp_max),
+    ] + ip.pattern_models
+
+def m_as_ref_str(ip, c, a): return val_of_strlike(a[0])
+def m_string_push_str(ip, c, a):
+    cell = a[0].cell; cell.v = sconcat([cell.v, val_of_strlike(a[1])]); return UNIT
+def m_str_index_rangefrom(ip, c, a):
+    s = val_of_strlike(a[0]); r = a[1]
+    start = r.fields[0].v
+    if not is_sym(s): return s.encode()[start:].decode()
+    return T("(str.substr %s %s (str.len %s))", 'String', s.s, smt_int(start), s.s)
+def m_rsplit_next_last(ip, c, a): raise Unsupported("rsplit")
+def install11(ip):
+    ip.pattern_models = [
+        (re.compile(r' as AsRef<str>>::as_ref$'), m_as_ref_str),
+        (re.compile(r'^String::push_str$'), m_string_push_str),
+        (re.compile(r'^<str as Index<RangeFrom<usize>>>::index$|^<String as Index<RangeFrom<usize>>>::index$'), m_str_index_rangefrom),
+        (re.compile(r'^<u64 as From<u8>>::from$|^<usize as From<.*>>::from$'), lambda ip, c, a: a[0]),
+    ] + ip.pattern_models
